@@ -3,6 +3,7 @@ package props
 import (
 	"fmt"
 	"go/types"
+	"reflect"
 	"strings"
 	"testing"
 
@@ -167,8 +168,9 @@ func describes(node analysis.Type, typ types.Type, an *analysis.Analysis) error 
 		flat = func(s *types.Struct) {
 			for i := 0; i < s.NumFields(); i++ {
 				f := s.Field(i)
-				if es, isStruct := f.Type().Underlying().(*types.Struct); f.Embedded() && isStruct && !isTimeLike(f.Type()) {
-					flat(es)
+				jsonName, _, _ := strings.Cut(reflect.StructTag(s.Tag(i)).Get("json"), ",")
+				if es, isStruct := f.Type().Underlying().(*types.Struct); f.Embedded() && isStruct && !isTimeLike(f.Type()) && jsonName == "" {
+					flat(es) // (an embedded struct with a JSON name is a regular field, as for encoding/json)
 					continue
 				}
 				want = append(want, f)
